@@ -174,6 +174,12 @@ def analyse(obs: Obs, prog):
         kind = spec["kind"]
         n_handlers += 1
         ev = Evaluator(prog)
+        if kind != "simulate" and "__init__" in H.methods:
+            # the accumulator rules below speak about the handler's running total `self.weight` / `self.score`.  A handler that keeps its state differently
+            # (e.g. a list of per-site weights summed in yield_state) is a representation these rules cannot read: no verdict (exit 2), not a violation
+            acc_ = "score" if kind == "assess" else "weight"
+            if f"self.{acc_}" not in Evaluator(prog).eval_fn(H.methods["__init__"], H.module, H).env:
+                raise AnalysisError(f"{hname}: no running total self.{acc_} is set up in __init__ - unrecognised handler state representation")
         r = ev.eval_fn(H.methods["handle_trace"], H.module, H)
         w = W(H, "handle_trace")
         inst = f"{hname}.handle_trace"
